@@ -686,8 +686,8 @@ private:
 
   friend constexpr blocking_kind
   tag_invoke(tag_t<unifex::blocking>, const type& self) noexcept {
-    blocking_kind source = blocking(self.source_);
-    blocking_kind completion = blocking(self.completion_);
+    blocking_kind source = unifex::blocking(self.source_);
+    blocking_kind completion = unifex::blocking(self.completion_);
     return std::max(source(), completion());
   }
 
